@@ -69,6 +69,21 @@ def build_graph(spec: dict):
                             duplicates=spec.get("rdup", False), tags=(VFooTag(), ImplStored()),
                             n_outputs=spec.get("n_outputs"))
         return c13.reflective_dedup(g) if spec.get("dedup") else g
+    if fam == "repeated_operands":
+        import numpy as np
+        import pytato as pt
+        x = pt.make_placeholder("x", (3,), np.float64)
+        y = pt.make_placeholder("y", (3,), np.float64)
+        m = pt.make_placeholder("m", (3, 3), np.float64)
+        t = x + y
+        k = spec["variant"]
+        outs = [{"a": x + x, "b": t * t},
+                {"a": pt.einsum("i,i->", x, x), "b": m @ m + pt.einsum("ij,jk,ki->", m, m, m)},
+                {"a": pt.stack([x, y, x]), "b": pt.concatenate([t, x, t])},
+                {"a": pt.where(pt.greater(x, x), x, x), "b": pt.maximum(t, t)},
+                {"a": x[pt.make_placeholder("i", (3,), np.int64)] + x, "b": (t + t) * (t + t), "c": t},
+                {"a": x + x, "a2": x + x, "b": pt.stack([t, t, t, t], axis=1)}][k]
+        return pt.transform.deduplicate(pt.make_dict_of_named_arrays(outs))
     return c13.build_graph(spec)
 
 
@@ -87,6 +102,8 @@ def graph_specs(ctx) -> list[dict]:
     # with structurally equal duplicates left in (id-keyed analyses must count objects)
     specs += [{"family": "random_tagged", "seed": base + 2000 + i, "size": 35, "rdup": True} for i in range(nr)]
     specs += [{"family": "ladder", "depth": depths[0], "dup": True}, {"family": "diamond", "dup": True}]
+    # ONE object in several operand slots of ONE user (uses are counted with multiplicity)
+    specs += [{"family": "repeated_operands", "variant": k} for k in range(6)]
     # nested, shared functions in every visiting order (counts and call sites vs the reflective walk)
     specs += [sp for sp in c13.nested_specs(ctx)]
     specs += [dict(sp, tag="VFooTag") for sp in c13.nested_specs(ctx)[1:4]]
@@ -275,6 +292,28 @@ def check_users(ctx, t: ch.Tables, cases: list[GraphCase], table_sigs: set[str])
             else:
                 dp_ok[i] = r
         n += 1
+        # get_nusers counts USES (an operand in two slots of one user is used twice): it is the length of the list
+        # get_list_of_users reports for the node, and both count the stored edges the reflective walk sees
+        nu = guarded(pa.get_nusers, case.graph)
+        if isinstance(nu, Raised):
+            dis += 1
+            report_raise(ctx, t, "fn:get_nusers", case, nu.e)
+        elif not isinstance(lu, Raised):
+            for u, users in lu.items():
+                if nu.get(u, 0) != len(users):
+                    dis += 1
+                    ui = case.idx(u)
+                    ctx.violation("nusers:differs-from-list-of-users",
+                                  f"get_nusers reports {nu.get(u, 0)} for a {type(u).__name__} node that get_list_of_users "
+                                  f"lists {len(users)} times (users: {sorted(type(x).__name__ for x in users)}) in {case.spec}",
+                                  {"check": "users", "graph": case.spec, "node": c13.describe(u) if ui is not None else None})
+                    break
+            extra = [k for k in nu if k not in lu and nu[k] != 0]
+            if extra:
+                dis += 1
+                ctx.violation("nusers:differs-from-list-of-users",
+                              f"get_nusers reports users for {len(extra)} node(s) get_list_of_users does not list ({case.spec})",
+                              {"check": "users", "graph": case.spec})
         for name, res in (("fn:get_list_of_users", lu), ("fn:get_users", uc)):
             if isinstance(res, Raised):
                 dis += 1
